@@ -382,11 +382,24 @@ def r06_8(ctx: Ctx) -> None:
     for r in raises:
         facts = q.facts_at(wd, r)
         good = False
+        def whole_folder(c: ast.AST) -> bool:
+            if not (isinstance(c, ast.Call) and isinstance(c.func, ast.Attribute) and norm(c.func.value) == "decompressor"):
+                return False
+            m = ctx.prog.method(dcls, c.func.attr)
+            return m is not None and any(isinstance(x, ast.Attribute) and x.attr in ("unpacksizes", "_unpacksizes") for x in walk(m.node))
+
+        def implies(cd: ast.AST, pol: bool) -> bool:
+            """does the fact (cd has truth value pol) imply that the whole folder was delivered?  `a or whole()` does not."""
+            if isinstance(cd, ast.UnaryOp) and isinstance(cd.op, ast.Not):
+                return implies(cd.operand, not pol)
+            if isinstance(cd, ast.BoolOp):
+                conj = isinstance(cd.op, ast.And) == pol  # (a and b) true / (a or b) false: every operand has that value
+                vals = [implies(v, pol) for v in cd.values]
+                return any(vals) if conj else all(vals)
+            return pol and whole_folder(cd)
         for cd, pol in facts:
-            for c in [x for x in ast.walk(cd) if isinstance(x, ast.Call) and isinstance(x.func, ast.Attribute) and norm(x.func.value) == "decompressor"]:
-                m = ctx.prog.method(dcls, c.func.attr)
-                if m is not None and any(isinstance(x, ast.Attribute) and x.attr in ("unpacksizes", "_unpacksizes") for x in walk(m.node)):
-                    good = True
+            if implies(cd, pol):
+                good = True
         ctx.check(good, "R06.8", wd, r, "folder CRC compared only when the decoder has delivered the whole folder",
                   "the folder-level CRC is compared as soon as the packed input is exhausted (fp.tell() >= src_end), i.e. possibly after the FIRST member of a folder "
                   "that holds several members: a valid archive with a folder CRC on a multi-member folder raises CrcError")
